@@ -286,7 +286,7 @@ def mutate_doc(rng, j):
         c = [o for o in objs if dict(o[1]).get('cirq_type') == 'REF']
         if c:
             o = rng.choice(c)
-            o[1][0] = ('cirq_type', rng.choice(['_SerializedKey', 'VAL', 5]))
+            o[1][0] = ('cirq_type', rng.choice(['_SerializedKey', 'VAL', 5, None]))
     return j
 
 
